@@ -497,7 +497,7 @@ def check_law(law, expr, o, fresh):
 
 
 LAW_OF_GROUP = {"L1": ["L1"], "L2": ["L2"], "L3": ["L3"], "L4a": ["L4a"], "L4t": ["L4t"], "L5": ["L5"], "L5b": ["L5b"], "L5d": ["L5d"],
-                "L6": ["L6"], "L6k": ["L6k"], "L6v": ["L6v"], "C05": ["C05"], "C08": ["C08"], "FP": ["FP"], "fingerprint": ["FP"], "soundness": ["FP"], "C04": ["C04"], "C06": ["C06"], "C06c": ["C06"], "with_options": ["C08"], "with_default_options": ["C08"], "tower": ["C08", "C05"]}
+                "L6": ["L6"], "L6k": ["L6k"], "L6v": ["L6v"], "spec": ["L4a", "L5", "L5d", "L6v"], "C05": ["C05"], "C08": ["C08"], "FP": ["FP"], "fingerprint": ["FP"], "soundness": ["FP"], "C04": ["C04"], "C06": ["C06"], "C06c": ["C06"], "with_options": ["C08"], "with_default_options": ["C08"], "tower": ["C08", "C05"]}
 
 
 def build(recipe):
